@@ -134,8 +134,11 @@ Definition run_step (ws : list world) (c : cache) (st : sexp) : option (sexp * c
       let aon_unexplained :=
         existsb (fun p => negb (aonb w p (real_slot rs)) && negb (uc' && warm_gap_classb c w p)) (w_pkgs w) in
       let transp_unexplained := negb transparent && sound in
+      (* a disagreement between a valid entry and the current sources is the known class only when
+         every such entry is a FAILED one *)
+      let sound_unexplained := negb sound && negb (stale_failed_onlyb c w) in
       let tags :=
-        if aon_unexplained || transp_unexplained || negb deps_ok then []
+        if aon_unexplained || transp_unexplained || sound_unexplained || negb deps_ok then []
         else (if existsb (fun p => negb (aonb w p (real_slot rs))) (w_pkgs w) then [of_atoms [C12_CLASSTAG; 1201]] else [])
              ++ (if negb sound then [of_atoms [C12_CLASSTAG; 1202]] else []) in
       Some (L ([pred_slots; pred_cache; pred_traffic; L (map judge aon); judge transparent; judge deps_ok; judge sound]
